@@ -39,3 +39,12 @@ reg("C02", "exploration", "E1",
     "membership, group order, order inside groups and flat-vs-nested shape compared with the reference partition.",
     "Reference closure: combining a field combines every field under the same outermost inner product. Product-pairing "
     "tuples: only the partition property is required.")
+
+reg("C14", "model_checking", "E3",
+    "exhaustive schedule exploration of the real async Submitter on a virtual event loop with a controllable worker",
+    "For each program of the pool (2-6 jobs: parallel chain, fan-in, fan-out, split, two chains; thorough adds diamond, "
+    "nested workflow, chain+fan) and every failing subset of <=2 (thorough <=3) jobs, all start/finish/deliver/simultaneous-"
+    "deliver/timer schedules are searched depth-first with state-hash pruning: complete for <=3-4 jobs, deviation-bounded "
+    "above. Each execution is the real Submitter/Job code on a fresh cache; executed bodies, cached successes and the "
+    "final error are checked against the job-level dependency relation.",
+    "Pool process = atomic in-process Job.run on the unpickled job; submitter sees jobs only via lock file, result file, future.")
